@@ -36,7 +36,8 @@ package vgirpc
 //@   at call decompressBounded assert [withincap] limit <= 0 || len(body) <= limit
 //@   at call decompressBounded assert [decodedcap] arg2 ==
 //@       (requestCapApplied && (h.maxDecompressedBodySize <= 0 || limit < h.maxDecompressedBodySize) ? limit :
-//@        (h.maxDecompressedBodySize <= 0 && limit > 0 ? min(limit * 16, maxI64()) : h.maxDecompressedBodySize))
+//@        (h.maxDecompressedBodySize == 0 && limit > 0 ? min(limit * 16, maxI64()) : (h.maxDecompressedBodySize < 0 ? 0 : h.maxDecompressedBodySize)))
+//@   # (repaired defect: a negative setting, documented as "no cap", derived 16 x the wire cap like the unset 0)
 //@   at call decompressBounded assert [rawbody] arg1 == body && (arg0 == "zstd" || arg0 == "gzip")
 //@   ensures [local_identity] result1 == nil && (encoding == "" || encoding == "identity") ==> result0 == body && (limit <= 0 || len(body) <= limit)
 //@   ensures [local_toolarge] err == nil && limit > 0 && len(body) > limit ==> result1 != nil &&
